@@ -243,7 +243,7 @@ def match_known(v, known):
 
 
 def write_replay(prop, v, n):
-    d = os.path.join(VERIF_DIR, "replays")
+    d = os.environ.get("RV_REPLAY_DIR") or os.path.join(VERIF_DIR, "replays")
     os.makedirs(d, exist_ok=True)
     path = os.path.join(d, "%s-%d.json" % (prop, n))
     with open(path, "w") as f:
